@@ -7,6 +7,7 @@ def main : IO UInt32 :=
     match family with
     | "c09" => C09.checkTracer params lines
     | "c09g" => C09.checkGrammar params lines
+    | "c09turns" => C09.checkGrammar params lines
     | "c09c" => C09.checkGrammar params lines
     -- the event-based-gateway histories (withdrawn tokens: a flow that ends without reaching an end event)
     | "c06" => C09.checkGrammar params lines
